@@ -707,13 +707,45 @@ def generate_text(repo, ns="Cur"):
     return HEADER.format(ns=ns, imp=('\nimport NpsVerif.Gen.Ref' if ns == 'Cur' else '')) + "\n".join(parts) + f"\nend Gen.{ns}\n", errors
 
 
-def regenerate(repo, lean_dir):
-    text, errors = generate_text(repo, "Cur")
-    path = os.path.join(lean_dir, "NpsVerif", "Gen", "Cur.lean")
+CHECKED = ("view2_ends", "calc_lengths", "pos_col_slice", "col_slice_slice", "col_slice_int")
+
+HEADER_C = """import NpsVerif.Gen.PreludeW
+/-! GENERATED by tools/translate.py from /repo's current source on every run. Do not edit.
+The column-slice kernels of `Gen.Cur`, same text, over wrapping signed 32-bit integers (`Gen.W32`, see PreludeW). -/
+set_option linter.unusedVariables false
+namespace Gen.CurW
+open Gen
+"""
+
+
+def checked_text(text):
+    """the kernels CHECKED of a generated kernel file, with Int replaced by W32 (wrapping int32 arithmetic)"""
+    parts = []
+    for name in CHECKED:
+        m = re.search(rf"^/-- [^\n]*\ndef {re.escape(name)} .*?(?=^/--|^def |^end )", text, flags=re.S | re.M)
+        if m is None:
+            continue
+        d = m.group(0)
+        d = d.replace("Int.fdiv", "W32.fdiv").replace("Int.fmod", "W32.fmod")
+        d = re.sub(r"(?<![A-Za-z0-9_.])Int(?![A-Za-z0-9_.])", "W32", d)
+        d = re.sub(r"(?<![A-Za-z0-9_.])iabs(?![A-Za-z0-9_])", "W32.iabs", d)
+        d = re.sub(r"(?<![A-Za-z0-9_.])sgn(?![A-Za-z0-9_])", "W32.sgn", d)
+        d = d.replace("Gen.Ref.", "Gen.RefW.")
+        parts.append(d.rstrip() + "\n")
+    return HEADER_C + "\n".join(parts) + "\nend Gen.CurW\n"
+
+
+def _write_if_changed(path, text):
     old = open(path).read() if os.path.exists(path) else None
     if old != text:
         with open(path, "w") as f:
             f.write(text)
+
+
+def regenerate(repo, lean_dir):
+    text, errors = generate_text(repo, "Cur")
+    _write_if_changed(os.path.join(lean_dir, "NpsVerif", "Gen", "Cur.lean"), text)
+    _write_if_changed(os.path.join(lean_dir, "NpsVerif", "Gen", "CurW.lean"), checked_text(text))
     # which kernels differ textually from the committed reference?
     ref_path = os.path.join(lean_dir, "NpsVerif", "Gen", "Ref.lean")
     changed = []
